@@ -61,7 +61,7 @@ class Emb:
 
 
 E0 = Emb("E0-native", 100.0, 0.01, 1.0, True)
-E1 = Emb("E1-coarse", 20.0, 0.5, 10.0)
+E1 = Emb("E1-coarse", 0.0, 0.5, 10.0)     # a = 0: lattice 0 maps to exactly 0.0 (falsy-zero bugs)
 E2 = Emb("E2-noisy", 0.1 + 0.2, 0.07, 1.0 / 3.0)
 E3 = Emb("E3-twin", -40.0, 0.25, 7.0)
 EMBS = {e.name: e for e in (E0, E1, E2, E3)}
